@@ -2,25 +2,34 @@
 """Assemble /verif/seeded/<id>/ from the sub-agents' deliverables, my confirmation runs and the check matrix"""
 import json, os, shutil, sys, glob
 
-ROOT = sys.argv[1] if len(sys.argv) > 1 else "/tmp/mut"
-CONF = sys.argv[2] if len(sys.argv) > 2 else "/root/mutant_confirm.jsonl"
-MATRIX = sys.argv[3] if len(sys.argv) > 3 else "/root/mutant_matrix.tsv"
+# usage: assemble_seeded.py [root conf matrix base]...   (default: the three rounds under /tmp/mut, /tmp/mut2, /tmp/mut3)
+ROUNDS = [("/tmp/mut", "/root/mutant_confirm.jsonl", "/root/mutant_matrix.tsv", "447ed3b"), ("/tmp/mut2", "/root/mutant_confirm2.jsonl", "/root/mutant_matrix2.tsv", "a63c2fe"), ("/tmp/mut3", "/root/mutant_confirm3.jsonl", "/root/mutant_matrix3.tsv", "a63c2fe")]
+if len(sys.argv) > 4:
+    a = sys.argv[1:]
+    ROUNDS = [tuple(a[i : i + 4]) for i in range(0, len(a) - 3, 4)]
 OUT = "/verif/seeded"
 conf = {}
-if os.path.exists(CONF):
-    for l in open(CONF):
-        l = l.strip()
-        if l.startswith("{"):
-            d = json.loads(l)
-            conf[d["id"]] = d
 matrix = {}
-if os.path.exists(MATRIX):
-    for l in open(MATRIX):
-        t = l.rstrip("\n").split("\t")
-        if len(t) >= 4:
-            matrix.setdefault(t[0], []).append(dict(check=t[1], rc=t[2].replace("rc=", ""), violations=int(t[3]) if t[3].isdigit() else t[3], failing_claims=t[4] if len(t) > 4 else ""))
+base_of = {}
+dirs = []
+for ROOT, CONF, MATRIX, BASE in ROUNDS:
+    if os.path.exists(CONF):
+        for l in open(CONF):
+            l = l.strip()
+            if l.startswith("{"):
+                d = json.loads(l)
+                conf[d["id"]] = d
+    if os.path.exists(MATRIX):
+        for l in open(MATRIX):
+            t = l.rstrip("\n").split("\t")
+            if len(t) >= 4:
+                matrix.setdefault(t[0], []).append(dict(check=t[1], rc=t[2].replace("rc=", ""), violations=int(t[3]) if t[3].isdigit() else t[3], failing_claims=t[4] if len(t) > 4 else ""))
+    for d in sorted(glob.glob(ROOT + "/C*/[a-f]")):
+        dirs.append(d)
+        base_of[d] = BASE
 rows = []
-for d in sorted(glob.glob(ROOT + "/C*/[ab]")):
+for d in sorted(dirs, key=lambda x: (os.path.basename(os.path.dirname(x)), os.path.basename(x))):
+    BASE = base_of[d]
     prop = os.path.basename(os.path.dirname(d))
     mid = "%s_%s" % (prop, os.path.basename(d))
     dst = os.path.join(OUT, mid)
@@ -42,10 +51,10 @@ for d in sorted(glob.glob(ROOT + "/C*/[ab]")):
         property=prop,
         summary=meta.get("summary"),
         needs=meta.get("needs"),
-        origin="written by a fresh sub-agent given only the property text and a scratch worktree of the pinned commit 447ed3b",
-        patch="patch.diff applies to the pinned commit 447ed3b" + ("; patch_rebased.diff is the same change re-applied on top of the fix: commits in /repo (the original hunk overlaps a repaired line)" if os.path.exists(os.path.join(d, "patch_rebased.diff")) else " and to /repo HEAD"),
+        origin="written by a fresh sub-agent given only the property text and a scratch worktree of commit %s%s" % (BASE, " (the pinned commit)" if BASE == "447ed3b" else " (the pinned commit plus the fix: commits; later rounds were also told which changes earlier rounds had made, to force different mechanisms)"),
+        patch="patch.diff applies to commit %s" % BASE + ("; patch_rebased.diff is the same change re-applied on top of the fix: commits in /repo (the original hunk overlaps a repaired line)" if os.path.exists(os.path.join(d, "patch_rebased.diff")) else " and to /repo HEAD" if BASE == "447ed3b" else ""),
         confirmed_by_me=dict(
-            how="scratch worktree of 447ed3b under /tmp: demo.py on the clean tree, `git apply patch.diff`, demo.py again, then the 76 stable baseline tests (tools/baseline.sh, pytest-xdist); worktree removed afterwards",
+            how="scratch worktree of %s under /tmp:" % BASE + " demo.py on the clean tree, `git apply patch.diff`, demo.py again, then the 76 stable baseline tests (tools/baseline.sh, pytest-xdist); worktree removed afterwards",
             demo_exit_clean=c.get("demo_rc_clean"),
             demo_exit_with_change=c.get("demo_rc_mutant"),
             baseline_with_change=c.get("baseline"),
